@@ -321,7 +321,8 @@ func runC03(c *vh.Ctx) {
 		"NUL and non-UTF-8 bytes; CR/LF/continuation mixtures; weighted random bytes; every program under testdata and every string literal of the " +
 		"Go test tables, their prefixes and single-byte replace/insert/delete mutations; concatenations up to 32 KiB with LF->CRLF rewrites; " +
 		"grammar-directed (ParseProgram totality): every statement/expression kind substituted into every slot of every other kind (slot types ignored: valid " +
-		"nestings and wrong-kind substitutions) with fresh identifiers, in 12 program contexts, truncated after every token, plus random deeper nestings. " +
+		"nestings and wrong-kind substitutions) with fresh identifiers, in 12 program contexts, truncated after every token, plus random deeper nestings; " +
+		"call graphs of 2-6 functions (chains of depth 2-8, diamonds, self/mutual recursion, random graphs) forwarding arrays/scalars typed at the far end / caller / both / inconsistently / nowhere, in varied item orders. " +
 		"non-trivial = the lexer produced at least two tokens before EOF/ILLEGAL, or the parser rejected the source")
 	var jobs []c03Job
 	if c.ReplayFile != "" {
@@ -336,6 +337,10 @@ func runC03(c *vh.Ctx) {
 		// grammar-directed stream for the totality oracle; a sample of it also goes through the lexer oracle, the model and the binary
 		for _, src := range c03Grammar(c) {
 			jobs = append(jobs, c03Job{src, polHeur, 0, "grammar"})
+		}
+		// multi-function call graphs (type inference across calls) for the totality oracle
+		for _, src := range c03CallGraphs(c) {
+			jobs = append(jobs, c03Job{src, polHeur, 0, "callgraph"})
 		}
 	}
 
